@@ -11,11 +11,26 @@
     Fragment: ADD SUB MUL DIV, AND IOR XOR SHL SHR ASHR, EQ GE GT LE LT, NEG NOT, MOVE, EXCHANGE,
     CONVERT, LOAD, STORE, DECLARE, gate applications with modifiers / expression parameters /
     qubits, MEASURE, RESET, DELAY, FENCE, HALT NOP WAIT, LABEL JUMP JUMP-WHEN JUMP-UNLESS, PRAGMA,
-    INCLUDE, SET-/SHIFT-FREQUENCY/-PHASE/-SCALE, SWAP-PHASES.  Not in the fragment: CALL, PULSE,
-    CAPTURE, RAW-CAPTURE and everything with an indented body. *)
+    INCLUDE, SET-/SHIFT-FREQUENCY/-PHASE/-SCALE, SWAP-PHASES, PULSE, CAPTURE, RAW-CAPTURE (with
+    the NONBLOCKING prefix, frame identifiers, waveform invocations), CALL. *)
 From Coq Require Import List NArith ZArith Bool.
 From QV Require Import Model.ParsePanic.
 Import ListNotations.
+
+(** * Decidable equalities *)
+
+Scheme Equality for cmd.
+Scheme Equality for dtype.
+Scheme Equality for modifier.
+Scheme Equality for iop.
+Scheme Equality for reserved.
+
+Definition ident_eqb (a b : ident) : bool :=
+  match a, b with
+  | IdRes r, IdRes s | IdResCase r, IdResCase s => reserved_beq r s
+  | IdName n, IdName m => N.eqb n m
+  | _, _ => false
+  end.
 
 (** * Printer *)
 
@@ -97,6 +112,56 @@ Definition print_duration (names : list N) (dur : expr) : list tok :=
   | _, _ => print_e dur
   end.
 
+(** [impl Quil for WaveformInvocation]: the name (an identifier, optionally [/] and a second
+    identifier), then — unless there are none — the parameters as [key: expr] joined with commas
+    in parentheses, sorted by key ([sort_by_key], stable).  The parameter map is an [IndexMap]
+    whose equality ignores the order; the model AST lists it in key order (the canonical
+    representative, see [wf_waveform]) and [key_leb] is the order of the harness's interning of
+    the keys of one case (non-reserved identifiers; any other pair compares equal, so the
+    stable sort leaves it alone). *)
+Definition key_leb (a b : ident) : bool :=
+  match a, b with IdName n, IdName m => N.leb n m | _, _ => true end.
+
+Definition key_ltb (a b : ident) : bool :=
+  match a, b with IdName n, IdName m => N.ltb n m | _, _ => false end.
+
+Fixpoint ins_named (x : ident * expr) (l : list (ident * expr)) : list (ident * expr) :=
+  match l with
+  | [] => [x]
+  | y :: t => if key_leb (fst x) (fst y) then x :: l else y :: ins_named x t
+  end.
+
+(** stable insertion sort: elements are inserted from the back *)
+Definition sort_named (l : list (ident * expr)) : list (ident * expr) :=
+  fold_right ins_named [] l.
+
+Fixpoint sep_named (l : list (ident * expr)) : list tok :=
+  match l with
+  | [] => []
+  | x :: t =>
+      match t with
+      | [] => TId (fst x) :: TColon :: print_e (snd x)
+      | _ => TId (fst x) :: TColon :: print_e (snd x) ++ TComma :: sep_named t
+      end
+  end.
+
+Definition print_waveform (w : waveform) : list tok :=
+  TId (wname w) :: (match wext w with Some x => [TOp OSlash; TId x] | None => [] end)
+    ++ match sort_named (wparams w) with [] => [] | l => TLParen :: sep_named l ++ [TRParen] end.
+
+Definition print_blocking (blocking : bool) : list tok :=
+  if blocking then [] else [TNonBlocking].
+
+(** [impl Quil for UnresolvedCallArgument]: an immediate is printed by [format_complex]; the
+    immediates the parser produces are a non-negative real or a non-negative imaginary number *)
+Definition print_callarg (a : callarg) : list tok :=
+  match a with
+  | CAMem m => print_memref m
+  | CAId x => [TId x]
+  | CAImm false v => [tok_of_real v]
+  | CAImm true v => [TFloat (flit_of_val v); TId (IdRes RI)]
+  end.
+
 Definition print_instr (i : instr) : list tok :=
   match i with
   | IArith c d s | ILogic c d s => TCmd c :: print_memref d ++ print_operand s
@@ -138,8 +203,12 @@ Definition print_instr (i : instr) : list tok :=
   | IReset q => TCmd CReset :: (match q with Some q => [print_qubit q] | None => [] end)
   | IFrameSet c f e => TCmd c :: print_frame f ++ print_e e
   | ISwapPhases a b => TCmd CSwapPhases :: print_frame a ++ print_frame b
-  (* outside the fragment: never compared *)
-  | ICall _ _ | ICapture _ _ _ _ | IPulse _ _ _ | IRawCapture _ _ _ _ => []
+  | IPulse b f w => print_blocking b ++ TCmd CPulse :: print_frame f ++ print_waveform w
+  | ICapture b f w m =>
+      print_blocking b ++ TCmd CCapture :: print_frame f ++ print_waveform w ++ print_memref m
+  | IRawCapture b f d m =>
+      print_blocking b ++ TCmd CRawCapture :: print_frame f ++ print_e d ++ print_memref m
+  | ICall name args => TCmd CCall :: TId name :: flat_map print_callarg args
   end.
 
 Definition print_program (l : list instr) : list tok :=
@@ -169,6 +238,56 @@ Definition wf_operand (allow_real : bool) (o : operand) : bool :=
   | OMem _ => true
   end.
 
+(** the parameter map in canonical form: keys strictly increasing (hence distinct) *)
+Fixpoint sorted_keys (l : list (ident * expr)) : bool :=
+  match l with
+  | [] => true
+  | x :: t => match t with [] => true | y :: _ => key_ltb (fst x) (fst y) && sorted_keys t end
+  end.
+
+Definition wf_waveform (w : waveform) : bool :=
+  sorted_keys (wparams w) && forallb (fun x : ident * expr => wf_expr (snd x)) (wparams w).
+
+(** the printed expression ends in a real number literal (infix right operands that are infix
+    and prefix operands that are infix or prefix are parenthesised; an imaginary literal ends in
+    the identifier [i]) *)
+Fixpoint ends_num (e : expr) : bool :=
+  match e with
+  | ENum false _ => true
+  | EInfix _ _ r => match r with EInfix _ _ _ => false | _ => ends_num r end
+  | ENeg a => match a with EInfix _ _ _ | ENeg _ => false | _ => ends_num a end
+  | _ => false
+  end.
+
+Definition is_i (x : ident) : bool := match x with IdRes RI => true | _ => false end.
+
+(** open finding [rawcapture-region-i]: RAW-CAPTURE prints [<duration> <memory reference>]; when
+    the printed duration ends in a real number literal and the region is named [i], the two parse
+    as an imaginary literal *)
+Definition rawcapture_region_i (d : expr) (m : memref) : bool := is_i (fst m) && ends_num d.
+
+Definition wf_callarg (a : callarg) : bool :=
+  match a with
+  | CAImm im v => wf_num v && Bool.eqb (norm_im im v) im
+  | _ => true
+  end.
+
+Definition arg_starts_with_i (a : callarg) : bool :=
+  match a with CAId x => is_i x | CAMem m => is_i (fst m) | CAImm _ _ => false end.
+
+(** finding [call-immediate-then-i]: a real immediate argument directly followed by an argument
+    spelled [i] / [i[n]] prints as [2 i], which parses as the imaginary literal [2i].  (No parsed
+    CALL has this shape: the parser itself reads [2 i] as one argument.) *)
+Fixpoint call_immediate_then_i (l : list callarg) : bool :=
+  match l with
+  | [] => false
+  | a :: t =>
+      (match a, t with
+       | CAImm false _, b :: _ => arg_starts_with_i b
+       | _, _ => false
+       end) || call_immediate_then_i t
+  end.
+
 Definition cmd_in (c : cmd) (l : list cmd) : bool :=
   existsb (fun d => match c, d with
                     | CAdd, CAdd | CSub, CSub | CMul, CMul | CDiv, CDiv
@@ -195,24 +314,87 @@ Definition wf_instr (i : instr) : bool :=
       cmd_in c [CSetFrequency; CSetPhase; CSetScale; CShiftFrequency; CShiftPhase]
       && nonempty (fst f) && wf_expr e
   | ISwapPhases a b => nonempty (fst a) && nonempty (fst b)
-  | ICall _ _ | ICapture _ _ _ _ | IPulse _ _ _ | IRawCapture _ _ _ _ => false
+  | IPulse _ f w => nonempty (fst f) && wf_waveform w
+  | ICapture _ f w _ => nonempty (fst f) && wf_waveform w
+  | IRawCapture _ f d m => nonempty (fst f) && wf_expr d && negb (rawcapture_region_i d m)
+  | ICall _ args => forallb wf_callarg args && negb (call_immediate_then_i args)
   | _ => true
   end.
 
-(** * Instance checker and case-file entry point *)
+(** ** CALL built through the API: an immediate argument is any [Complex64]
 
-Scheme Equality for cmd.
-Scheme Equality for dtype.
-Scheme Equality for modifier.
-Scheme Equality for iop.
-Scheme Equality for reserved.
+    [print_complex] is [format_complex]: [0] if both parts are zero, the real part alone (trimmed)
+    if the imaginary part is zero, the imaginary part (always a float) followed by [i] if the real
+    part is zero, else both with the sign of the imaginary part in between. *)
+Record cplx := { re_neg : bool; re_abs : numval; im_neg : bool; im_abs : numval }.
 
-Definition ident_eqb (a b : ident) : bool :=
-  match a, b with
-  | IdRes r, IdRes s | IdResCase r, IdResCase s => reserved_beq r s
-  | IdName n, IdName m => N.eqb n m
-  | _, _ => false
+Inductive xarg := XMem (m : memref) | XId (x : ident) | XImm (c : cplx).
+
+Definition is_zero (v : numval) : bool := match v with VInt 0 => true | _ => false end.
+
+Definition print_complex (c : cplx) : list tok :=
+  let re := (if re_neg c then [TOp OMinus] else []) ++ [tok_of_real (re_abs c)] in
+  let im := (if im_neg c then [TOp OMinus] else [])
+              ++ [TFloat (flit_of_val (im_abs c)); TId (IdRes RI)] in
+  if is_zero (re_abs c) && is_zero (im_abs c) then [TInt 0]
+  else if is_zero (im_abs c) then re
+  else if is_zero (re_abs c) then im
+  else re ++ (if im_neg c then [] else [TOp OPlus]) ++ im.
+
+Definition print_xarg (a : xarg) : list tok :=
+  match a with XMem m => print_memref m | XId x => [TId x] | XImm c => print_complex c end.
+
+Definition print_xcall (name : ident) (args : list xarg) : list tok :=
+  TCmd CCall :: TId name :: flat_map print_xarg args.
+
+(** open finding [call-immediate-sign]: an immediate with a negative component or with both
+    components non-zero *)
+Definition call_immediate_sign (a : xarg) : bool :=
+  match a with
+  | XImm c =>
+      (re_neg c && negb (is_zero (re_abs c))) || (im_neg c && negb (is_zero (im_abs c)))
+      || (negb (is_zero (re_abs c)) && negb (is_zero (im_abs c)))
+  | _ => false
   end.
+
+(** the argument the parser produces for the printed text, outside that class *)
+Definition xarg_parsed (a : xarg) : callarg :=
+  match a with
+  | XMem m => CAMem m
+  | XId x => CAId x
+  | XImm c => if is_zero (im_abs c) then CAImm false (re_abs c) else CAImm true (im_abs c)
+  end.
+
+Definition wf_xarg (a : xarg) : bool :=
+  match a with XImm c => wf_num (re_abs c) && wf_num (im_abs c) | _ => true end.
+
+Definition wf_xcall (args : list xarg) : bool :=
+  forallb wf_xarg args && negb (existsb call_immediate_sign args)
+  && negb (call_immediate_then_i (map xarg_parsed args)).
+
+(** The parser collects waveform parameters into an [IndexMap]: a repeated key keeps its first
+    position and takes the last value.  [norm_instr] turns the parser model's parameter list into
+    the canonical form of that map (deduplicated, in key order). *)
+Fixpoint map_insert (x : ident * expr) (l : list (ident * expr)) : list (ident * expr) :=
+  match l with
+  | [] => [x]
+  | y :: t => if ident_eqb (fst x) (fst y) then x :: t else y :: map_insert x t
+  end.
+
+Definition map_of (l : list (ident * expr)) : list (ident * expr) :=
+  fold_left (fun acc x => map_insert x acc) l [].
+
+Definition norm_waveform (w : waveform) : waveform :=
+  {| wname := wname w; wext := wext w; wparams := sort_named (map_of (wparams w)) |}.
+
+Definition norm_instr (i : instr) : instr :=
+  match i with
+  | IPulse b f w => IPulse b f (norm_waveform w)
+  | ICapture b f w m => ICapture b f (norm_waveform w) m
+  | _ => i
+  end.
+
+(** * Instance checker and case-file entry point *)
 
 Definition flit_eqb (a b : flit) : bool :=
   match a, b with
@@ -266,7 +448,7 @@ Definition chk_roundtrip (i1 : instr) (t2 : list tok) (p1_eq_p2 t2_eq_t3 : bool)
 
 Definition parses_to (ts : list tok) (i : instr) : bool :=
   match p_program Repaired ts with
-  | Ok [j] [] => toks_eqb (print_instr j) (print_instr i)
+  | Ok [j] [] => toks_eqb (print_instr (norm_instr j)) (print_instr i)
   | _ => false
   end.
 
